@@ -41,6 +41,8 @@ BIG_Q = [(8, 64, 'hamming'), (4, 128, 'hann')]                       # realistic
 BIG_T = BIG_Q + [(8, 1024, 'hamming'), (12, 256, 'blackman'), (8, 1024, ['kaiser', 8.0])]
 KINDS = ['noise_tone', 'int_ramp', 'complex']
 KINDS_T = KINDS + ['float32', 'complex64']
+LONG_C = 6             # thorough: streams of >= LONG_C windows are run for the quick box of configurations only
+ALLPOS_C = 4           # thorough: impulse trains at ALL M*P offsets for streams of <= ALLPOS_C windows, 3 offsets beyond
 AB_REAL = [(1.0, 1.0), (2.5, -0.75), (-1.0, 1000.0)]
 AB_CPLX = [(1.0, 1.0), (1j, 2.0 - 1.0j), (-0.5 + 0.25j, 1000.0)]
 
@@ -531,33 +533,40 @@ def run(ctx):
 
     ctx.pmap(case_window, [dict(M=M, P=P, win=win) for (M, P, win) in cfgs + big])
 
+    quick_box = set((M, P, str(win)) for M in TAPS for P in BRANCHES_Q for win in WINDOWS_Q)
     stream = []
     for cw in cs:                                   # shortest streams first: the first counterexample is the smallest
         for (M, P, win) in cfgs:
+            if cw >= LONG_C and (M, P, str(win)) not in quick_box:
+                continue                            # streams of >= LONG_C windows: the quick box of configurations only
             for kind in kinds:
                 stream.append(dict(M=M, P=P, win=win, kind=kind, c=cw, seed=seed))
-            positions = range(M * P) if thorough else sorted(set([0, P + 1 if M > 1 else P - 1, M * P - 1]))
+            if thorough and cw <= ALLPOS_C:
+                positions = range(M * P)
+            else:
+                positions = sorted(set([0, P + 1 if M > 1 else P - 1, M * P - 1]))
             for pos in positions:
                 stream.append(dict(M=M, P=P, win=win, kind='impulse', pos=pos, c=cw, seed=seed))
     for (M, P, win) in big:
         for cw in ((2, 3, 4) if P < 1024 else (2, 3)):
             for kind in ('noise_tone', 'complex', 'impulse'):
                 stream.append(dict(M=M, P=P, win=win, kind=kind, pos=P + 1, c=cw, seed=seed))
-    ctx.pmap(case_stream, stream)
+    ctx.pmap(case_stream, stream, chunk=8)
 
     # two objects: every unordered pair of (M, P) (incl. the same (M, P)); windows and data differ between the objects
     mps = [(M, P) for M in TAPS for P in BRANCHES_Q if not R.window_is_degenerate(M, P, 'hann')]
     pairs = []
-    cpair = (3, 4) if thorough else (3,)
-    for ca in cpair:
-        for cb in cpair:
-            for i, a in enumerate(mps):
-                for b in mps[i:]:
-                    for kinds_ab in ((('noise_tone', 'noise_tone'), ('int_ramp', 'complex')) if thorough
-                                     else (('noise_tone', 'noise_tone'),)):
-                        pairs.append(dict(A=dict(M=a[0], P=a[1], win='hamming', kind=kinds_ab[0], c=ca),
-                                          B=dict(M=b[0], P=b[1], win='hann', kind=kinds_ab[1], c=cb), seed=seed))
-    ctx.pmap(case_pair, pairs)
+    cpairs = [(3, 3), (3, 4), (4, 3), (4, 4)] if thorough else [(3, 3)]
+    for ca, cb in cpairs:
+        kk = [('noise_tone', 'noise_tone')]
+        if thorough and (ca, cb) != (4, 4):
+            kk.append(('int_ramp', 'complex'))
+        for i, a in enumerate(mps):
+            for b in mps[i:]:
+                for kinds_ab in kk:
+                    pairs.append(dict(A=dict(M=a[0], P=a[1], win='hamming', kind=kinds_ab[0], c=ca),
+                                      B=dict(M=b[0], P=b[1], win='hann', kind=kinds_ab[1], c=cb), seed=seed))
+    ctx.pmap(case_pair, pairs, chunk=2)
 
     alg = [dict(M=M, P=P, win=win, c=cw, seed=seed) for (M, P, win) in cfgs + big[:2]
            for cw in ((2, 3, 5) if thorough else (3,))]
@@ -583,7 +592,8 @@ def run(ctx):
         coverage_extra={'bounds': {'num_taps': TAPS, 'num_branches': BRANCHES_T if thorough else BRANCHES_Q,
                                    'windows': WINDOWS_T if thorough else WINDOWS_Q, 'big_configs': big,
                                    'stream_windows': cs, 'kinds': kinds + ['impulse'],
-                                   'impulse_positions': 'all M*P' if thorough else 3,
-                                   'pair_stream_windows': list(cpair), 'pair_mps': len(mps)},
+                                   'impulse_positions': ('all M*P for c<=%d, else 3' % ALLPOS_C) if thorough else 3,
+                                   'long_streams': 'c>=%d only for the quick box of (M,P,window)' % LONG_C,
+                                   'pair_stream_windows': cpairs, 'pair_mps': len(mps)},
                         'alphabet': ['channelize(chunk, cache=True)', 'channelize(foreign, cache=False)',
                                      '_reset_cache()', 'construct second object']})
